@@ -218,8 +218,14 @@ def _gene_case(repo, it, S, spec):
             out.append((acc + (" [children on both strands]" if mixed else ""), f"{desc}: {acc} raises {v}", f"{q}.{acc}"))
             continue
         gb = list(zip(v.fields["_genomic_starts"], v.fields["_genomic_ends"]))
+        ub = union_blocks(blocks)
         if positions(gb) != positions(blocks):
             out.append((acc, f"{desc}: {acc} covers blocks {gb}; the union of the children's blocks is {union_blocks(blocks)}", f"{q}.{acc}"))
+        elif gb != sorted(gb) or (v.fields.get("start"), v.fields.get("end")) != (ub[0][0], ub[-1][1]) or any(a >= b for a, b in gb):
+            # the returned object itself is well formed: blocks in ascending order, start / end = its span (anything done with it next
+            # - another collection around it, an export - reads these)
+            out.append((acc + " returns a well-formed feature", f"{desc}: the feature returned by {acc} lists its blocks as {gb} with start/end "
+                        f"({v.fields.get('start')},{v.fields.get('end')}); ascending blocks spanning ({ub[0][0]},{ub[-1][1]}) are expected", f"{q}.{acc}"))
         elif parent_kind == "chunk":
             loc = v.fields["_location"]
             want_rel = [p - off for p in positions(blocks) if 2 <= p < 45]
